@@ -10,6 +10,7 @@ mod sched;
 mod stores;
 mod solverfuzz;
 mod ddfuzz;
+mod longarc;
 
 fn main() {
     let args: Vec<String> = std::env::args().collect();
@@ -25,6 +26,8 @@ fn main() {
         "nodup_fringe_fuzz" => fringe::fuzz(&rest, true),
         "simple_fringe_fuzz" => fringe::fuzz(&rest, false),
         "par_abort_bounds" => parallel::replay_abort_bounds(&rest),
+        "longarc_witness" => longarc::witness(&rest),
+        "longarc_fuzz" => longarc::fuzz(&rest),
         "dd_fuzz" => ddfuzz::fuzz(&rest),
         "solver_fuzz" => solverfuzz::fuzz(&rest),
         "cache_fuzz" => stores::cache_fuzz(&rest),
